@@ -108,6 +108,9 @@ fn small_menu() -> Vec<Rec> {
         Rec::new("o.t.", 300, c::CH, t::TXT, Rd::Txt(vec![b"c".to_vec()])),
         Rec::new("x.y.", 60, c::CH, t::TXT, Rd::Txt(vec![b"d".to_vec()])),
         Rec::new("a.o.t.", 300, c::IN, 65280, Rd::Opaque(vec![1, 2])),
+        // the first owner in another letter case: the same domain name, but a
+        // record keeps the spelling of its own line
+        Rec::new("A.O.t.", 300, c::IN, t::A, Rd::A([10, 0, 0, 3])),
     ]
 }
 
